@@ -65,6 +65,7 @@ const (
 	vpHupStart      = 41
 	vpHandlerEvent  = 42
 	vpPollExit      = 43
+	vpHupEnd        = 44
 	vpFdClose       = 50
 	vpFdOpen        = 51
 	vpSrvAccept     = 60
